@@ -56,7 +56,8 @@ def frame_fc(framer, frame):
 OTHER_PDUS = [[8, 0, 0, 0x12, 0x34], [8, 0, 1, 0, 0], [8, 0, 2, 0, 0], [8, 0, 3, 0x3A, 0], [8, 0, 10, 0, 0],
               [8, 0, 11, 0, 0], [8, 0, 20, 0, 0], [8, 0, 21, 0, 4], [43, 14, 1, 0], [43, 14, 2, 0],
               [43, 14, 3, 0x80], [43, 14, 4, 5], [17], [7], [11], [12], [24, 0, 0], [20, 7, 6, 0, 1, 0, 0, 0, 2],
-              [21, 9, 6, 0, 1, 0, 0, 0, 1, 0xAB, 0xCD],
+              [21, 9, 6, 0, 1, 0, 0, 0, 1, 0xAB, 0xCD], [21, 9, 7, 0, 4, 0, 7, 0, 1, 0xBE, 0xEF], [20, 7, 7, 0, 1, 0, 0, 0, 2],
+              [21, 18, 6, 0, 1, 0, 0, 0, 1, 0xAB, 0xCD, 5, 0, 1, 0, 0, 0, 1, 0x12, 0x34],
               # diagnostic sub-functions that decode but have no execute(): the catch-all answers SlaveFailure
               [8, 0, 5, 0, 0], [8, 0, 9, 0, 0], [8, 0, 22, 0, 0]]
 
